@@ -40,11 +40,17 @@ ASSUMPTIONS = [
   'with overwrite=True a crash in the middle of removing several newer steps may leave an intermediate newer step as latest; the oracle then requires latest to be a complete previously committed step (narrow reading, see DESIGN.md)',
   'save_checkpoint_multiprocess, multi-host arrays, GCS paths, Orbax AsyncCheckpointer are not covered',
 ]
-PROBES = ['leftover_tmp_after_crash', 'crash_after_commit', 'crash_before_commit', 'retry_rejected_committed', 'overwrite_removed_newer', 'keep_every_retained', 'chunked_leaf', 'async_latest_in_flight', 'sweep_points', 'policy_error_expected', 'torn_write', 'ioerror_runs']
+PROBES = ['orbax_histories', 'half_deleted_old_step', 'leftover_tmp_after_crash', 'crash_after_commit', 'crash_before_commit', 'retry_rejected_committed', 'overwrite_removed_newer', 'keep_every_retained', 'chunked_leaf', 'async_latest_in_flight', 'sweep_points', 'policy_error_expected', 'torn_write', 'ioerror_runs']
 
 GOOD_PREFIXES = ['checkpoint_', 'ckpt', 'a_b_', 'run1_', 'model.x']
 BAD_PREFIXES = ['m-', 'v2.', 'run1']  # end in '-', '.', digit: the step number is mis-parsed (finding prefix-corrupts-step-order)
 DIRS = ['/sim/run-3/x7', '/sim/ckpts', '/sim/a.b/e-1']
+ORBAX_TMP = '.orbax-checkpoint-tmp'
+ORBAX_SHARE = 0.04  # of histories; an Orbax history costs ~15x a legacy one, so roughly a third of the wall time
+SCRATCH = None
+_COUNTER = [0]
+LAST_FAULT = [None]
+EMPTY_OK = [True]  # Orbax refuses zero-size arrays (its documented limitation, not part of C11)
 
 
 def setup_worker(w, tier):
@@ -66,8 +72,24 @@ def setup_worker(w, tier):
   from sim import sched as S
   from absl import logging as alog
 
-  alog.set_verbosity(alog.ERROR)
+  alog.set_verbosity(alog.FATAL)
+  import logging as _pl
+  _pl.getLogger('absl').setLevel(_pl.CRITICAL)
+  _pl.getLogger().setLevel(_pl.CRITICAL)
   warnings.simplefilter('ignore')
+  import os, tempfile, threading
+
+  _hook = threading.excepthook
+
+  def quiet(args):  # threads of a 'crashed process' die with SimCrash: that is the simulation, not noise worth printing
+    if args.exc_type is not None and issubclass(args.exc_type, D.SimCrash):
+      return
+    _hook(args)
+
+  threading.excepthook = quiet
+  global SCRATCH
+  SCRATCH = os.environ.get('VERIF_WORKER_SCRATCH') or tempfile.mkdtemp(prefix='verif-c11-')
+  os.makedirs(SCRATCH, exist_ok=True)
 
   @struct.dataclass
   class St:
@@ -113,11 +135,16 @@ def generate(rs, tier):
     pool=pool,
     stay_bias=g.choice([0.0, 0.5]),
   )
+  if g.random() < float(__import__('os').environ.get('VERIF_ORBAX_SHARE', ORBAX_SHARE)):  # env override: diagnostics only
+    knobs.update(backend='orbax', io_mode='DEFAULT', asyn=False, chunk=2**30)
+    asyn = False
+    if bad_prefix:
+      knobs['prefix'] = g.choice(GOOD_PREFIXES)
   every_hist = g.choice([None, None, 2, 3, 5])
   if every_hist:
     knobs['pool'] = pool = [p for p in pool if p != 0] or [1, 2, 3]
   ops = []
-  nops = g.randrange(3, 13)
+  nops = g.randrange(3, 13) if knobs['backend'] == 'legacy' else g.randrange(2, 8)
   # saves mostly ascend so that histories make progress; some go back / repeat to hit the policy errors
   order = sorted(pool)
   cur = 0
@@ -133,7 +160,7 @@ def generate(rs, tier):
       op = dict(op='save', step=step, keep=g.choice([1, 1, 2, 2, 3, 4]), every=every_hist if g.random() < 0.8 else None, overwrite=g.random() < 0.25, tmpl=g.randrange(4))
       if faults and g.random() < 0.45:
         fk = g.random()
-        if fk < 0.2 and not swept and not asyn:
+        if fk < (0.2 if knobs['backend'] == 'legacy' else 0.06) and not swept and not asyn:
           op['sweep'] = True
           swept = True
         elif fk < 0.75 or asyn:
@@ -207,14 +234,24 @@ def simplify(plan):
       yield rep(overwrite=False)
 
 
+def teardown_worker():
+  import shutil
+
+  if SCRATCH:
+    shutil.rmtree(SCRATCH, ignore_errors=True)
+
+
 def signature(plan, v):
   k = plan['knobs']
   faulted = [o for o in plan['ops'] if o['op'] == 'save' and (o.get('fault') or o.get('sweep'))]
+  lf = v.get('last_fault') or {}
   return dict(
     backend=k['backend'],
     bad_prefix=k['prefix'] in BAD_PREFIXES,
     any_fault=bool(faulted),
-    overwrite_faulted=any(o['overwrite'] for o in faulted),
+    overwrite_faulted=bool(lf.get('overwrite')),
+    fault_site=lf.get('site'),
+    step_existed=bool(lf.get('existed')),
   )
 
 
@@ -231,7 +268,7 @@ def make_tree(idx, tmpl):
     return {
       'a': np.full((3,), v, np.float32),
       'b': {'c': np.array(idx, np.int32), 'd': (np.ones(4, np.float32) * (idx % 64)).astype(ml_dtypes.bfloat16)},
-      'l': [np.arange(5, dtype=np.int8) + np.int8(idx % 100), np.zeros((0,), np.float32)],
+      'l': [np.arange(5, dtype=np.int8) + np.int8(idx % 100), np.zeros((0 if EMPTY_OK[0] else 1,), np.float32)],
     }
   if tmpl == 2:
     return {'s': St(w=np.ones(2, np.float64) * v, n=np.array(idx, np.int64)), 'z': np.array([idx % 251], np.uint8)}
@@ -296,8 +333,16 @@ class World:
   def __init__(self, plan, res, log, disk=None, model=None, chooser=None, sub=False):
     self.plan, self.res, self.log = plan, res, log
     k = self.k = plan['knobs']
-    self.dir, self.prefix, self.pool = k['dir'], k['prefix'], k['pool']
-    self.disk = disk if disk is not None else D.SimDisk(k['listdir_seed'])
+    self.prefix, self.pool = k['prefix'], k['pool']
+    self.backend = k['backend']
+    if disk is None:
+      if self.backend == 'orbax':
+        _COUNTER[0] += 1
+        disk = D.RealDisk(SCRATCH, f'h{_COUNTER[0]}')
+      else:
+        disk = D.SimDisk(k['listdir_seed'])
+    self.disk = disk
+    self.dir = disk.map(k['dir'])
     self.model = dict(model or {})  # step -> (idx, tmpl)
     self.sub = sub
     self.asyn = k['asyn'] and not sub
@@ -313,12 +358,13 @@ class World:
     self.restore_io = None
     self.idx = 0
     self.debris_ok = False
+    self.model_at_fault = {}
     self.int_steps = all(isinstance(s, int) for s in self.pool)
     self.names = {self.prefix + str(s): s for s in self.pool}
 
   # -- plumbing
   def install(self):
-    self.restore_io = D.install(fio, self.disk, self.k['io_mode'], tf_errors)
+    self.restore_io = self.disk.install(fio, self.k['io_mode'], tf_errors)
     self.new_process()
 
   def new_process(self):
@@ -351,17 +397,18 @@ class World:
 
   # -- observation helpers (harness reads the disk directly, never through flax)
   def listing(self):
-    d = self.disk
-    if d.norm(self.dir) not in d.dirs:
-      return []
-    return [n for n in sorted(d.children(self.dir)) if n.startswith(self.prefix)]
+    return [n for n in self.disk.listdir(self.dir) if n.startswith(self.prefix)]
+
+  def is_debris(self, n):
+    return n == self.prefix + 'tmp' if self.backend == 'legacy' else ORBAX_TMP in n
 
   # -- oracle (a): after a completed save / at quiescence
   def check_complete(self, where):
     names = self.listing()
-    if self.debris_ok:
-      # an interrupted save may leave its temporary file behind until the next save completes
-      names = [n for n in names if n != self.prefix + 'tmp']
+    if self.debris_ok or self.backend == 'orbax':
+      # an interrupted save may leave its temporary file behind until the next save completes (legacy);
+      # Orbax temporary directories are not checkpoints and nobody promises to collect them
+      names = [n for n in names if not self.is_debris(n)]
     want = sorted(self.prefix + str(s) for s in self.model)
     if sorted(names) != want:
       extra = sorted(set(names) - set(want))
@@ -377,8 +424,9 @@ class World:
       if av != [st(s) for s in sorted(self.model)]:
         raise Violation('available-steps-wrong', f'{where}: available_steps={av}, expected {sorted(self.model)}')
     for s, ent in sorted(self.model.items()):
-      self.check_restore(s, ent, where, target=(self.idx + s.__hash__()) % 2 == 0, parallel=False)
-    if self.model:
+      if ent is not None:
+        self.check_restore(s, ent, where, target=(self.idx + s.__hash__()) % 2 == 0, parallel=False)
+    if self.model and self.model[max(self.model)] is not None:
       r = checkpoints.restore_checkpoint(self.dir, None, prefix=self.prefix, parallel=self.idx % 3 == 0)
       if not same(r, state_dict(self.tree_of(self.model[max(self.model)]))):
         raise Violation('restore-latest-wrong', f'{where}: restore_checkpoint(latest) is not the tree saved at step {max(self.model)}')
@@ -404,11 +452,11 @@ class World:
   def check_foreign(self, where):
     d = self.disk
     for name, (isdir, data) in self.foreign.items():
-      p = d.norm(self.dir + '/' + name)
+      p = self.dir + '/' + name
       if isdir:
-        if p not in d.dirs or d.files.get(p + '/inner') != data:
+        if d.get_file(p + '/inner') != data:
           raise Violation('foreign-entry-damaged', f'{where}: directory {name} (not carrying the prefix) was removed or changed')
-      elif d.files.get(p) != data:
+      elif d.get_file(p) != data:
         raise Violation('foreign-entry-damaged', f'{where}: file {name} (not carrying the prefix) was removed or changed')
 
   # -- oracle (b): after an interrupted save (crash + restart, or I/O error)
@@ -417,34 +465,52 @@ class World:
     names = self.listing()
     listed = {}
     for n in names:
-      if n == self.prefix + 'tmp':
+      if self.is_debris(n):
         self.res.probe('leftover_tmp_after_crash')
         continue
       if n not in self.names:
         raise Violation('garbage-entry', f'{where}: unexpected entry {n} after interrupted save')
       listed[self.names[n]] = n
     new_model = {}
+    bad = {}
     for s in sorted(listed):
       try:
         r = checkpoints.restore_checkpoint(self.dir, None, step=s, prefix=self.prefix, parallel=False)
       except D.SimCrash:
         raise
       except Exception as e:  # noqa: BLE001
-        raise Violation('listed-step-unrestorable', f'{where}: step {s} is listed after the interruption but restore raised {type(e).__name__}: {e}')
+        bad[s] = ('listed-step-unrestorable', f'{where}: step {s} is listed after the interruption but restore raised {type(e).__name__}: {str(e)[:300]}')
+        continue
       ok_new = s == S_ and same(r, state_dict(self.tree_of(ent_new)))
-      ok_old = s in before and same(r, state_dict(self.tree_of(before[s])))
+      ok_old = before.get(s) is not None and same(r, state_dict(self.tree_of(before[s])))
       if not (ok_new or ok_old):
-        raise Violation('listed-step-corrupt', f'{where}: step {s} restores to neither the tree previously saved there nor the new one')
+        if before.get(s, 0) is None:
+          new_model[s] = None  # was already a half-deleted entry before this save
+          continue
+        bad[s] = ('listed-step-corrupt', f'{where}: step {s} restores to neither the tree previously saved there nor the new one')
+        continue
       new_model[s] = ent_new if ok_new else before[s]
-    committed = S_ in listed and new_model[S_] == ent_new
+    pol = policy(before, S_, op['keep'], op['every'], op['overwrite'])
+    # Orbax accepts a step older than the latest; with a small `keep` the policy then discards the new step itself
+    self_discard = S_ not in pol
+    committed = (S_ in new_model and new_model[S_] == ent_new) or (self_discard and S_ in listed)
+    maybe_committed = committed or (self_discard and S_ not in listed)
     self.res.probe('crash_after_commit' if committed else 'crash_before_commit')
     missing = set(before) - set(listed)
-    if S_ in before and S_ not in listed:
+    allowed = (set(before) - pol) if maybe_committed else set()
+    for s, (kind, detail) in sorted(bad.items()):
+      # a directory checkpoint that the policy was deleting when the process died may be half gone; it is
+      # tolerated (kept in the model as an unreadable entry) unless it is what latest_checkpoint returns
+      if self.backend == 'orbax' and (((s in allowed or (s == S_ and self_discard)) and s != max(listed)) or before.get(s, 0) is None):
+        new_model[s] = None
+        self.res.probe('half_deleted_old_step')
+        continue
+      raise Violation(kind, detail)
+    if S_ in before and before[S_] is not None and S_ not in new_model:
       raise Violation('overwritten-step-lost', f'{where}: step {S_} existed before the interrupted overwrite and now holds neither the old nor the new checkpoint')
-    if not committed and missing:
+    if not maybe_committed and missing:
       raise Violation('lost-checkpoint-before-commit', f'{where}: steps {sorted(missing)} disappeared although the new checkpoint was not committed')
-    if committed:
-      allowed = set(before) - policy(before, S_, op['keep'], op['every'], op['overwrite'])
+    if maybe_committed:
       if missing - allowed:
         raise Violation('lost-checkpoint', f'{where}: steps {sorted(missing - allowed)} disappeared but the policy retains them')
     lat = checkpoints.latest_checkpoint(self.dir, self.prefix)
@@ -457,7 +523,7 @@ class World:
       ok = {S_} | ({max(before)} if before else set())
       if max(listed) not in ok:
         raise Violation('latest-not-old-or-new', f'{where}: latest step {max(listed)} is neither the previous latest nor the new step {S_}')
-    if listed:
+    if listed and new_model[max(listed)] is not None:
       r = checkpoints.restore_checkpoint(self.dir, None, prefix=self.prefix)
       if not same(r, state_dict(self.tree_of(new_model[max(listed)]))):
         raise Violation('restore-latest-wrong', f'{where}: restore_checkpoint(latest) after the interruption is not a complete old-or-new tree')
@@ -472,6 +538,8 @@ class World:
       return False
     if step in self.model:
       return True
+    if self.backend == 'orbax':
+      return False
     return any(s > step for s in self.model)  # legacy back-end rejects every step older than the latest
 
   def raw_save(self, op, ent, am=None):
@@ -492,14 +560,16 @@ class World:
       except Exception:  # noqa: BLE001
         pass
       n = w.disk.ops - w.disk.base
-      kinds = [k for k, _ in w.disk.oplog]
+      kinds = [k[0] for k in w.disk.oplog]
     finally:
       w.sched.shutdown()
+      w.disk.quiesce()
+      w.disk.dispose()
       self._reinstall()
     return n, kinds
 
   def _reinstall(self):
-    D.install(fio, self.disk, self.k['io_mode'], tf_errors)
+    self.disk.install(fio, self.k['io_mode'], tf_errors)
     checkpoints.thread = S.SimExecutorModule(self.sched)
 
   def do_save(self, oi, op, ent=None):
@@ -526,8 +596,7 @@ class World:
         if kinds[fault['at']] not in ('write', 'flush'):
           fault['torn'] = None
     before = dict(self.model)
-    files_before = dict(self.disk.files)
-    dirs_before = set(self.disk.dirs)
+    snap_before = self.disk.snapshot()
     self.disk.window(fault)
     where = f'op {oi} save(step={step}, keep={op["keep"]}, every={op["every"]}, overwrite={op["overwrite"]})'
     outcome = 'ok'
@@ -550,7 +619,8 @@ class World:
       return
     if outcome == 'exc':
       if self.disk.fired is not None and self.disk.fired['kind'] == 'ioerror':
-        self.note_fault()
+        self.model_at_fault = before
+        self.note_fault(op)
         self.last_faulted = (op, ent)
         self.after_interruption(op, ent, before, where + ' after injected I/O error ' + str(self.disk.fired))
         return
@@ -558,7 +628,7 @@ class World:
         raise kernel.HarnessError('async ioerror not generated')
       if not exp_err:
         raise Violation('unexpected-exception', f'{where}: raised {type(err).__name__}: {err} although the policy allows the save')
-      if self.disk.files != files_before or self.disk.dirs != dirs_before:
+      if self.disk.snapshot() != snap_before:
         raise Violation('rejected-save-changed-directory', f'{where}: raised {type(err).__name__} but the directory changed')
       if op.get('_retry'):
         res.probe('retry_rejected_committed')
@@ -584,9 +654,24 @@ class World:
       raise kernel.HarnessError(f'fault {fault} did not fire')
     self.check_complete(where)
 
-  def note_fault(self):
+  def note_fault(self, op=None):
     f = self.disk.fired
     self.had_fault = True
+    name = f['name']
+    own = self.prefix + str(op['step']) if op is not None else None
+    base = [x for x in name.split('/') if x.startswith(self.prefix)]
+    ent = base[0] if base else name
+    if f['op'] == 'rename':
+      site = 'commit-rename'
+    elif self.is_debris(ent):
+      site = 'tmp'
+    elif ent == own:
+      site = 'own-final'
+    elif ent in self.names:
+      site = 'other-step'
+    else:
+      site = 'directory'
+    LAST_FAULT[0] = dict(site=site, kind=f['kind'], overwrite=bool(op and op['overwrite']), existed=bool(op and op['step'] in self.model_at_fault))
     self.res.fault(f"{f['kind']}@{f['op']}")
     if f.get('torn_bytes') is not None:
       self.res.probe('torn_write')
@@ -600,7 +685,8 @@ class World:
       op, ent, before, where = p['op'], p['ent'], p['before'], p['where']
       if self.completed and self.completed[-1][0] is op:
         self.completed.pop()
-    self.note_fault()
+    self.model_at_fault = before
+    self.note_fault(op)
     self.last_faulted = (op, ent)
     self.disk.restart()
     self.new_process()
@@ -634,6 +720,8 @@ class World:
             w.do_save(oi, dict(op, step=min(later), sweep=False, fault=None, overwrite=False), None)
         finally:
           w.sched.shutdown()
+          w.disk.quiesce()
+          w.disk.dispose()
           self._reinstall()
         self.res.steps += w.disk.ops
     self.do_save(oi, dict(op, sweep=False, fault=None), ent)
@@ -669,7 +757,7 @@ class World:
       want = self.path(max(self.model)) if self.model else None
       if lat != want:
         raise Violation('latest-wrong', f'op {oi}: latest_checkpoint={lat}, expected {want}')
-      self.log.add(oi, 'latest', lat)
+      self.log.add(oi, 'latest', lat and lat[len(self.dir):])
       return
     # a save is in flight: latest must name a COMPLETE checkpoint: the previous latest or the new step
     self.res.probe('async_latest_in_flight')
@@ -690,7 +778,7 @@ class World:
       ok = {self.path(S_)} | ({self.path(max(before))} if before else set())
       if lat not in ok:
         raise Violation('latest-not-old-or-new', f'op {oi}: latest {lat} during async save of {S_}')
-    data = self.disk.files.get(self.disk.norm(lat))
+    data = self.disk.get_file(lat)
     good = False
     if data is not None:
       try:
@@ -727,13 +815,15 @@ class World:
       self.log.add(oi, 'available', sorted(self.model))
     elif kind == 'restore':
       self.wait(oi)
-      if self.model:
-        steps = sorted(self.model)
+      if any(e is not None for e in self.model.values()):
+        steps = sorted(s for s, e in self.model.items() if e is not None)
         s = steps[op['which'] % len(steps)]
         self.check_restore(s, self.model[s], f'op {oi}', target=op['target'], parallel=op['parallel'])
         self.log.add(oi, 'restore', s)
       else:
         t = {'keep': np.zeros(1)}
+        if self.model:
+          return
         r = checkpoints.restore_checkpoint(self.dir, t, prefix=self.prefix)
         if r is not t:
           raise Violation('restore-invented-data', f'op {oi}: restore from an empty directory did not return the target unchanged')
@@ -743,18 +833,14 @@ class World:
       if name.startswith(self.prefix) or name in self.foreign:
         return
       d = self.disk
-      p = d.norm(self.dir + '/' + name)
-      if d.exists(p):
+      p = self.dir + '/' + name
+      if name in d.listdir(self.dir):
         return
-      d.base = d.ops
-      d.fault = None
-      d.mkdirs(self.dir)
       data = ('foreign ' + name).encode()
       if op['isdir']:
-        d.mkdirs(p)
-        d.files[p + '/inner'] = data
+        d.put_file(p + '/inner', data)
       else:
-        d.files[p] = data
+        d.put_file(p, data)
       self.foreign[name] = (op['isdir'], data)
       self.log.add(oi, 'foreign', name)
     else:
@@ -776,7 +862,7 @@ class World:
       finally:
         w.sched.shutdown()
         self._reinstall()
-      mine = {p: v for p, v in self.disk.files.items() if p.startswith(self.dir + '/' + self.prefix)}
+      mine = {p: v for p, v in self.disk.files.items() if p.startswith(self.dir + '/' + self.prefix)}  # SimDisk only (async is legacy-only)
       if mine != w.disk.files:
         raise Violation('async-differs-from-sync', f'async saves left {sorted(mine)}, the same saves done synchronously leave {sorted(w.disk.files)} (or contents differ)')
 
@@ -792,9 +878,11 @@ def execute(plan):
   old_chunk = serialization.MAX_CHUNK_SIZE
   old_flag = config.flax_use_orbax_checkpointing
   serialization.MAX_CHUNK_SIZE = k['chunk']
-  config.update('flax_use_orbax_checkpointing', False)
+  config.update('flax_use_orbax_checkpointing', k['backend'] == 'orbax')
+  EMPTY_OK[0] = k['backend'] != 'orbax'
   w = World(plan, res, log, chooser=chooser)
   viol = None
+  LAST_FAULT[0] = None
   try:
     w.install()
     try:
@@ -817,12 +905,18 @@ def execute(plan):
     config.update('flax_use_orbax_checkpointing', old_flag)
   if k['chunk'] < 256:
     res.probe('chunked_leaf')
+  if k['backend'] == 'orbax':
+    res.probe('orbax_histories')
   res.ops = len(plan['ops'])
-  log.add('final', sorted(w.disk.files), sorted(str(s) for s in w.model))
+  log.add('final', sorted(w.disk.files) if not w.disk.real else [n for n in w.listing() if not w.is_debris(n)], sorted(str(s) for s in w.model))
+  if w.disk.real:
+    w.disk.dispose()
   log.add('sched', list(chooser.trace))
   res.digest = log.digest()
   res.sched_digest = kernel.digest(chooser.trace) if k['asyn'] else ''
   res.nontrivial = bool(res.faults) or w.nsaves >= 3
+  if viol is not None:
+    viol['last_fault'] = LAST_FAULT[0]
   res.violation = viol
   if viol is not None and 'schedule' not in plan and k['asyn']:
     res.replay_plan = dict(plan, schedule=list(chooser.trace))
